@@ -89,7 +89,8 @@ func c04Pool() []c04Val {
 		d(vI("i64", 0), true), d(vI("i64", 1), true), d(vI("i64", -1), true), d(vI("i64", math.MinInt64), true), d(vI("i64", math.MaxInt64), true),
 		d(vU("u64", 1), true), d(vU("u64", math.MaxUint64), true), d(vU("u64", 1<<63), true),
 		d(vI("i0", 7), true), d(vI("i8", -128), true), d(vI("i16", 300), true), d(vI("i32", -70000), true), d(vU("u8", 255), true), d(vU("u16", 65535), true), d(vU("u32", 1), true), d(vU("u0", 2), true),
-		d(vF("f64", 1.5), true), d(vF("f64", 1), true), d(vF("f64", math.NaN()), false), d(vF("f64", math.Inf(1)), true), d(vF("f64", math.Inf(-1)), true),
+		// NaN IS hashable (a map may hold it as a key; it just cannot be looked up again: D81)
+		d(vF("f64", 1.5), true), d(vF("f64", 1), true), d(vF("f64", math.NaN()), true), d(vF("f64", math.Inf(1)), true), d(vF("f64", math.Inf(-1)), true),
 		d(vF("f64", math.Copysign(0, -1)), true), d(vF("f64", 1e300), true), d(vF("f64", 9223372036854775808.0), true), d(vF("f32", 0.5), true), d(vF("f32", float64(float32(math.Inf(1)))), true),
 		d(vS(""), true), d(vS("x"), true), d(vS("1"), true), d(vS("kind"), true), d(vS("true"), true), d(vS("1.5"), true), d(vS("\xff\xfe"), true), d(vS("a+"), true), d(vS("("), true),
 		d(vSl(tSlice(sx.A("u8")), vU("u8", 104), vU("u8", 105)), false), d(vSl(tSlice(sx.A("u8"))), false),
@@ -103,6 +104,15 @@ func c04Pool() []c04Val {
 		d(vM(tAnyMap, vS("kind"), vS("A")), false), d(vM(tAnyMap, vS("kind"), vU("u64", 1)), false), d(vM(tAnyMap, vS("kind"), vNil()), false),
 		d(vM(tI64Map, vI("i64", 1), vS("a")), false), d(vM(tMap(sx.A("str"), sx.A("str")), vS("a"), vS("b")), false), d(vM(tMap(sx.A("str"), sx.A("i64")), vS("a"), vI("i64", 1)), false),
 		d(vM(tMap(sx.A("i64"), sx.A("str")), vI("i64", 1), vS("b")), false), d(vM(tMap(sx.A("u64"), sx.A("any")), vU("u64", 1), vS("b")), false),
+		// maps with a float key that is not an ordinary number: NaN (not equal to itself: MapIndex cannot find it again, D81),
+		// +-Inf, -0; untyped and float-keyed, at the root, below a map / a list / an object property / a one-of member
+		d(vM(tAnyMap, vF("f64", math.NaN()), vI("i64", 1)), false), d(vM(tAnyMap, vF("f64", math.Inf(1)), vS("a"), vF("f64", math.Inf(-1)), vS("b")), false),
+		d(vM(tAnyMap, vF("f64", math.Copysign(0, -1)), vS("a")), false), d(vM(tAnyMap, vF("f32", math.NaN()), vS("a"), vS("k"), vS("b")), false),
+		d(vM(tMap(sx.A("f64"), sx.A("any")), vF("f64", math.NaN()), vS("a")), false), d(vM(tMap(sx.A("f64"), sx.A("str")), vF("f64", math.Inf(1)), vS("a"), vF("f64", math.Copysign(0, -1)), vS("b")), false),
+		d(vM(tAnyMap, vS("a"), vM(tAnyMap, vF("f64", math.NaN()), vS("x"))), false), d(vM(tStrMap, vS("x"), vM(tAnyMap, vF("f64", math.NaN()), vS("x"))), false),
+		d(vSl(tAnySlice, vM(tAnyMap, vF("f64", math.NaN()), vS("x"))), false),
+		d(vM(tStrMap, vS("kind"), vS("A"), vS("q"), vM(tAnyMap, vF("f64", math.NaN()), vI("i64", 1))), false),
+		d(vM(tAnyMap, vS("kind"), vS("A"), vF("f64", math.NaN()), vI("i64", 1)), false),
 		d(vOp("struct", "cbor.Tag"), false), d(vOp("struct", "big.Int"), false), d(vOp("ptr", "*big.Int"), true),
 		d(deepSlice(40), false), d(deepMap(40), false),
 		// (b) arbitrary Go values
